@@ -266,4 +266,103 @@ theorem decode_encode (P : Prims) (m : Msg) (key : Option Bytes) (fp : Bool) (ht
     intro d; cases fp <;> simp [fpTvs, attrStep]
   rw [h1, h2]
 
+/-! ### messages built by another implementation -/
+
+/-- an attribute as ANY implementation may put it on the wire: arbitrary padding bytes (RFC 5389 §15: "may be
+any value") -/
+def tlvP (t : Nat) (v pad : Bytes) : Bytes := be16 t ++ be16 v.length ++ v ++ pad
+
+def flatP (tvs : List (Nat × Bytes × Bytes)) : Bytes := (tvs.map (fun p => tlvP p.1 p.2.1 p.2.2)).flatten
+
+theorem decodeLoop_tlvP (tx : Bytes) (d : Decoded) (t : Nat) (v pad rest : Bytes) (ht : t < 65536)
+    (hv : v.length < 65536) (hp : pad.length = pad4 v.length) :
+    decodeLoop tx d (tlvP t v pad ++ rest) = decodeLoop tx (attrStep tx d t v) rest := by
+  simp only [tlvP, be16, List.cons_append, List.nil_append, List.append_assoc]
+  rw [decodeLoop]
+  simp only [rd16_be16 ht, rd16_be16 hv]
+  have h1 : ¬ v.length > (v ++ (pad ++ rest)).length := by simp
+  simp only [h1, ↓reduceIte]
+  have h2 : (v ++ (pad ++ rest)).take v.length = v := take_append_len rfl
+  have h3 : (v ++ (pad ++ rest)).drop (v.length + pad4 v.length) = rest := by
+    rw [← List.append_assoc]; exact drop_append_len (by simp [hp])
+  rw [h2, h3]
+
+theorem decodeLoop_flatP (tx : Bytes) (d : Decoded) (tvs : List (Nat × Bytes × Bytes)) (rest : Bytes)
+    (h : ∀ p ∈ tvs, p.1 < 65536 ∧ p.2.1.length < 65536 ∧ p.2.2.length = pad4 p.2.1.length) :
+    decodeLoop tx d (flatP tvs ++ rest) = decodeLoop tx (tvs.foldl (fun d p => attrStep tx d p.1 p.2.1) d) rest := by
+  induction tvs generalizing d with
+  | nil => simp [flatP]
+  | cons p ps ih =>
+    have hp := h p (by simp)
+    simp only [flatP, List.map_cons, List.flatten_cons, List.append_assoc, List.foldl_cons] at *
+    rw [decodeLoop_tlvP _ _ _ _ _ _ hp.1 hp.2.1 hp.2.2]
+    exact ih _ (fun q hq => h q (by simp [hq]))
+
+/-- RFC 5389 §6 figure 3: 14-bit message type from a 12-bit method and a 2-bit class -/
+def rfcMsgType (method cls : Nat) : Nat :=
+  (method % 16) + (cls % 2) * 16 + (method / 16 % 8) * 32 + (cls / 2 % 2) * 256 + (method / 128 % 32) * 512
+
+def rfcMethodNumber : Method → Nat
+  | .binding => 0x001 | .allocate => 0x003 | .refresh => 0x004 | .send => 0x006 | .data => 0x007
+  | .createPermission => 0x008 | .channelBind => 0x009
+def rfcClassNumber : Class → Nat
+  | .request => 0 | .indication => 1 | .success => 2 | .error => 3
+
+theorem dec_rfcMsgType (m : Method) (c : Class) :
+    decMethod (rfcMsgType (rfcMethodNumber m) (rfcClassNumber c) &&& stunDecMethodMask) = some m ∧
+    decClass (rfcMsgType (rfcMethodNumber m) (rfcClassNumber c) &&& stunDecClassMask) = some c ∧
+    rfcMsgType (rfcMethodNumber m) (rfcClassNumber c) < 65536 := by
+  cases m <;> cases c <;> decide
+
+theorem foreign_decode (mt : Nat) (cookie tx : Bytes) (tvs : List (Nat × Bytes × Bytes)) (m : Method) (c : Class)
+    (hmt : mt < 65536) (hcookie : cookie.length = 4) (htx : tx.length = 12)
+    (hm : decMethod (mt &&& stunDecMethodMask) = some m) (hc : decClass (mt &&& stunDecClassMask) = some c)
+    (hb : ∀ p ∈ tvs, p.1 < 65536 ∧ p.2.1.length < 65536 ∧ p.2.2.length = pad4 p.2.1.length)
+    (hlen : (flatP tvs).length < 65536) :
+    decode (be16 mt ++ be16 (flatP tvs).length ++ cookie ++ tx ++ flatP tvs) =
+      .ok (tvs.foldl (fun d p => attrStep tx d p.1 p.2.1) (emptyDecoded c m tx)) := by
+  simp only [be16, List.cons_append, List.nil_append, List.append_assoc, decode]
+  rw [rd16_be16 hmt, rd16_be16 hlen]
+  simp only [List.length_cons, List.length_append, htx, hcookie]
+  have h1 : ¬ (4 + (12 + (flatP tvs).length) < 16) := by omega
+  have h2 : ¬ ((flatP tvs).length + 20 ≠ 4 + (12 + (flatP tvs).length) + 1 + 1 + 1 + 1) := by omega
+  simp only [h1, h2, ↓reduceIte, hm, hc]
+  have e1 : List.take 12 (List.drop 4 (cookie ++ (tx ++ flatP tvs))) = tx := by
+    rw [drop_append_len hcookie]; exact take_append_len htx
+  have e2 : List.drop 16 (cookie ++ (tx ++ flatP tvs)) = flatP tvs := by
+    rw [show 16 = 4 + 12 by rfl, ← List.drop_drop, drop_append_len hcookie, drop_append_len htx]
+  rw [e1, e2]
+  have := decodeLoop_flatP tx (emptyDecoded c m tx) tvs [] hb
+  simp only [List.append_nil] at this
+  rw [this, decodeLoop_nil]
+
+
+/-- how the decoder reads each attribute another implementation may send (RFC type numbers written out) -/
+theorem foreign_attr_readings (tx : Bytes) (d : Decoded) (htx : tx.length = 12) :
+    (∀ a : Addr, a.Wf → attrStep tx d 0x0020 (xorValue a tx) = { d with mapped := some a }) ∧
+    (∀ a : Addr, a.Wf → attrStep tx d 0x0012 (xorValue a tx) = { d with peer := some a }) ∧
+    (∀ a : Addr, a.Wf → attrStep tx d 0x0016 (xorValue a tx) = { d with relayed := some a }) ∧
+    (∀ (r0 r1 cls num : UInt8) (reason : Bytes), attrStep tx d 0x0009 (r0 :: r1 :: cls :: num :: reason) =
+        { d with errorCode := some (cls.toNat % 8 * 100 + num.toNat) }) ∧
+    (∀ v, validUtf8 v = true → attrStep tx d 0x0014 v = { d with realm := some v }) ∧
+    (∀ v, validUtf8 v = true → attrStep tx d 0x0015 v = { d with nonce := some v }) ∧
+    (∀ v, attrStep tx d 0x0013 v = { d with data := some v }) ∧
+    (∀ v, v < 4294967296 → attrStep tx d 0x000D (be32 v) = { d with lifetime := some v }) ∧
+    (∀ v, attrStep tx d 0x0025 v = { d with useCandidate := true }) ∧
+    (∀ t v, t ∉ [0x0020, 0x0012, 0x0016, 0x0009, 0x0014, 0x0015, 0x0013, 0x000D, 0x0025] → attrStep tx d t v = d) := by
+  refine ⟨?_, ?_, ?_, ?_, ?_, ?_, ?_, ?_, ?_, ?_⟩
+  · intro a ha; simp [attrStep, parseXor_xorValue a tx ha htx]
+  · intro a ha; simp [attrStep, parseXor_xorValue a tx ha htx]
+  · intro a ha; simp [attrStep, parseXor_xorValue a tx ha htx]
+  · intro r0 r1 cls num reason; simp [attrStep]
+  · intro v hv; simp [attrStep, hv]
+  · intro v hv; simp [attrStep, hv]
+  · intro v; simp [attrStep]
+  · intro v hv; simp only [attrStep, be32]; simp [rd32_be32 hv]
+  · intro v; simp [attrStep]
+  · intro t v ht
+    simp only [List.mem_cons, List.not_mem_nil, or_false, not_or] at ht
+    obtain ⟨h1, h2, h3, h4, h5, h6, h7, h8, h9⟩ := ht
+    simp [attrStep, h1, h2, h3, h4, h5, h6, h7, h8, h9]
+
 end RtcModel.StunRfc
